@@ -395,7 +395,18 @@ example : ((getClient (step sD (.misbehaviour 0 .submit true)).1 0).map (·.froz
 /-- **nested_update_rejected** — an ibc `MsgUpdateClient` inside any wrapper (depth ≥ 1) is refused by the
     ante handler whatever it carries, and nothing changes; the hub-side checks cannot be bypassed by nesting. -/
 theorem nested_update_rejected (s : St) (c : Nat) (hd : Hdr) (ibc : Bool) :
-    updateClient s c .nested hd ibc = (s, .ante .nestedDisabled) := rfl
+    updateClient s c .nested hd ibc = (s, .ante .nestedDisabled) ∧
+    updateClient s c .storedProposal hd ibc = (s, .ante .nestedDisabled) := ⟨rfl, rfl⟩
+
+/-- the same for evidence: inside authz.MsgExec or inside an x/group proposal that is only stored at submission
+    (to be executed later by a vote, through the message router alone) the message is refused by the ante handler of
+    the SUBMITTING transaction, whatever client it names (that the filter descends into proposals whatever their
+    `Exec` field says is the regenerated fact `ante_filter_shape`, Lemmas/GenEqAnteLC) -/
+theorem stored_proposal_rejected (s : St) (c : Nat) (hd : Hdr) (ibc : Bool) (cl : Client) (hc : getClient s c = some cl) :
+    updateClient s c .storedProposal hd ibc = (s, .ante .nestedDisabled) ∧
+    misbehaviour s c .submitStored ibc = (s, .ante .nestedDisabled) ∧
+    misbehaviour s c .viaUpdateStored ibc = (s, .ante .nestedDisabled) := by
+  refine ⟨rfl, ?_, ?_⟩ <;> simp [misbehaviour, hc]
 
 /-- the wrapper message of x/lightclient cannot be executed at all as the code is (no signer annotation):
     refused without any change by both routes -/
